@@ -36,6 +36,60 @@ print(json.dumps({str(r): run(r, 20000, 7 + (r or 0)) for r in (None, 1, 2, 3, 1
 '''
 
 
+NESTED_SRC = r'''
+import random, sys, json
+from monkeytype.tracing import CallTraceLogger, trace_calls
+class L(CallTraceLogger):
+    def __init__(s): s.names = []
+    def log(s, t): s.names.append(t.func.__name__)
+def inner_f(a): return a
+def outer_f(a): return a
+def run(outer_rate, inner_rate, same_logger, n, seed):
+    random.seed(seed)
+    lo = L(); li = lo if same_logger else L()
+    flt = lambda c: c in (inner_f.__code__, outer_f.__code__)
+    with trace_calls(lo, 0, flt, outer_rate):
+        for i in range(n): outer_f(i)
+        with trace_calls(li, 0, flt, inner_rate):
+            for i in range(n): inner_f(i)
+        for i in range(n): outer_f(i)
+    return {"inner": (lo.names + ([] if same_logger else li.names)).count("inner_f"), "outer": lo.names.count("outer_f")}
+out = []
+for (o, i) in ((100, None), (None, 10), (10, 1), (None, None), (2, 2), (1, 100)):
+    for same in (True, False):
+        r = run(o, i, same, 4000, 11)
+        r.update({"outer_rate": o, "inner_rate": i, "same_logger": same, "n": 4000})
+        out.append(r)
+print(json.dumps(out))
+'''
+
+
+def nested_test(ctx):
+    """a tracing block opened inside another one (same or different logger) samples at ITS OWN rate, the enclosing block at
+    its own again afterwards"""
+    import json
+    p = subprocess.run([common.PY, "-c", NESTED_SRC], capture_output=True, text=True, env=common.sub_env(), timeout=300)
+    rows = json.loads(p.stdout[p.stdout.index("["):])
+    bad = []
+
+    def bounds(n, rate):
+        pexp = 1.0 if rate in (None, 1) else 1.0 / rate
+        sd = math.sqrt(n * pexp * (1 - pexp))
+        return n * pexp - 6 * sd - 1e-9, n * pexp + 6 * sd + 1e-9
+    for r in rows:
+        lo, hi = bounds(r["n"], r["inner_rate"])
+        lo2, hi2 = bounds(2 * r["n"], r["outer_rate"])
+        r["inner_bounds"], r["outer_bounds"] = [round(lo, 1), round(hi, 1)], [round(lo2, 1), round(hi2, 1)]
+        if not (lo <= r["inner"] <= hi):
+            bad.append({"what": f"nested tracing block with sample_rate={r['inner_rate']} inside a block with rate "
+                                f"{r['outer_rate']} ({'same' if r['same_logger'] else 'own'} logger): {r['inner']} of {r['n']} "
+                                f"calls traced, expected within [{lo:.0f}, {hi:.0f}]", **r})
+        if not (lo2 <= r["outer"] <= hi2):
+            bad.append({"what": f"enclosing tracing block with sample_rate={r['outer_rate']} around a nested block with rate "
+                                f"{r['inner_rate']}: {r['outer']} of {2 * r['n']} calls traced, expected within [{lo2:.0f}, {hi2:.0f}]", **r})
+    return rows, bad
+
+
 def fraction_test(ctx):
     p = subprocess.run([common.PY, "-c", FRACTION_SRC], capture_output=True, text=True, env=common.sub_env(), timeout=300)
     import json
@@ -72,16 +126,19 @@ def run(ctx):
     failures, mismatches = tracer_cases.split_results(cases, bad, "C18", what_of)
     frac, fbad = fraction_test(ctx)
     failures += fbad
+    nested, nbad = nested_test(ctx)
+    failures += nbad
     nontrivial = len({common.digest(c["term"]) for c in cases if c["stats"]["rate"] not in (None, 1) and c["stats"]["frames"] >= 5})
     d = tracer_cases.summarise(cases)
     return {
-        "evaluations": len(cases) + len(frac), "distinct_nontrivial": nontrivial,
+        "evaluations": len(cases) + len(frac) + len(nested), "distinct_nontrivial": nontrivial,
         "rule": "C02's generated programs (generators rebinding their parameters between yields, interleaved, closed, thrown "
                 "into) replayed with sample rates {None,1,2,3,10,100} and a seeded stand-in for random.randrange whose "
                 "draws are handed to the model; non-trivial = real sampling (rate > 1) and >= 5 frames; plus the traced "
-                "fraction over 20000 plain calls per rate against 6-sigma binomial bounds",
+                "fraction over 20000 plain calls per rate against 6-sigma binomial bounds, and nested tracing blocks "
+                "(same / own logger) with different rates, each checked against its own rate",
         "samples": [{"program": c["prog"], "stats": c["stats"]} for c in cases[:3]],
-        "distribution": d, "extra": {"traced_fraction": frac},
+        "distribution": d, "extra": {"traced_fraction": frac, "nested_blocks": nested},
         "failures": failures, "mismatches": mismatches,
         "relation": "rev (logged (run rate H)) = real logger.log calls /\\ keys (live (run rate H)) = CallTracer.traces",
     }
